@@ -159,6 +159,7 @@ func (p *Program) index() {
 					if fd, ok := d.(*ast.FuncDecl); ok {
 						if obj := pk.TypesInfo.Defs[fd.Name]; obj != nil {
 							p.decls[obj] = fd
+							registerErrorCtor(obj, fd, pk.TypesInfo)
 						}
 						p.fileOf[fd] = f
 						p.pkgOf[fd] = pk
